@@ -64,9 +64,15 @@ def main():
         if imp.returncode:
             print(f"{sid}: REJECT does not import: {imp.stderr[-300:]}")
             return 1
-        d1 = sh(["/venv/bin/python", dpath], cwd=wt, env=env, timeout=1200)
-        ran.append(f"demo with the patch: exit {d1.returncode}")
-        if d1.returncode == 0:
+        try:
+            d1 = sh(["/venv/bin/python", dpath], cwd=wt, env=env, timeout=300)
+            ran.append(f"demo with the patch: exit {d1.returncode}")
+            code1 = d1.returncode
+        except subprocess.TimeoutExpired:
+            # the demo finished on the unchanged tree and hangs with the patch: a failure, too
+            ran.append("demo with the patch: no exit within 300 s (hangs)")
+            code1 = 124
+        if code1 == 0:
             print(f"{sid}: REJECT demo passes with the patch")
             return 1
         b = sh(["/venv/bin/python", os.path.join(VERIF, "tools", "baseline.py")],
